@@ -120,6 +120,7 @@ func runC12(w *World, tr *Trace) {
 		e := w.E
 		rec := &c12Rec{op: op, inv: nextSeq()}
 		if op.K == "close" {
+			w.FaultFired("close_injected_mid_run")
 			mu.Lock()
 			closeInvoke = rec.inv
 			mu.Unlock()
